@@ -1,7 +1,8 @@
 (* Executable model of the mutable state of a geostructures shape (property C16): the public
    attributes (dt, _properties, holes), the per-instance caches (cached_property bounds / centroid /
    area, the lru_cache of to_shapely) and the operations that read or update them, after repair
-   D17 (GeoRing.to_polygon builds a new hole list; volume is a plain property).  No proofs here.
+   D17 (GeoRing.to_polygon builds a new hole list; volume is a plain property) and D32
+   (GeoRing.to_polygon deep-copies _properties).  No proofs here.
 
    Geometry is immutable through the public API; everything computed from it (bounds, centroid,
    area, the Shapely object, the geometry part of GeoJSON / WKT, the polygonised outline) is an
@@ -136,8 +137,9 @@ Section State.
     end.
 
   (* to_polygon(): GeoPolygon returns self; box / circle / ellipse build GeoPolygon(coords,
-     holes=self.holes, dt=self.dt) (no properties); a ring / wedge passes its _properties dict itself,
-     a linestring a deep copy.  The receiver is not touched (after D17). *)
+     holes=self.holes, dt=self.dt) (no properties); a ring / wedge (after D32) and a linestring pass a
+     deep copy of _properties.  dt is passed by reference: a TimeInterval has no in-place mutator,
+     so it is a value here.  The receiver is not touched (after D17). *)
   Definition to_polygon (s : st) : st * res (ret * obsv) :=
     match kd s with
     | KPolygon => (s, Ok (RSame, ONone))
